@@ -2,6 +2,7 @@ package types
 
 import (
 	fmt "fmt"
+	"math"
 
 	paramtypes "github.com/cosmos/cosmos-sdk/x/params/types"
 )
@@ -59,6 +60,11 @@ func validateLiquidationBatchSize(i interface{}) error {
 
 	if v <= 0 {
 		return fmt.Errorf("batch size must be positive: %d", v)
+	}
+	// the sweeps convert the batch size with int(...): above MaxInt64 it would turn negative and every
+	// sweep window would be empty
+	if v > math.MaxInt64 {
+		return fmt.Errorf("batch size must not exceed %d: %d", int64(math.MaxInt64), v)
 	}
 
 	return nil
